@@ -42,6 +42,8 @@ FIXTURES = [
     ("c01_bad_ask_merge_swapped", "bad", ["R5"]),
     ("c01_bad_rebuild_order", "bad", ["R6"]),
     ("c01_bad_minadd_no_reset", "bad", ["R7"]),
+    ("c01_bad_update_keeps_md", "bad", ["R7"]),
+    ("c01_good_update_fieldwise", "good", []),
     ("c01_bad_combinator_push", "bad", ["R8"]),
     ("c01_good_shift_mid", "good", []),
 ]
